@@ -14,7 +14,7 @@ var cur struct {
 
 func init() {
 	verifhook.OrderHook = func(label string, n int) []int {
-		if cur.t == nil || !cur.order || n < 2 {
+		if cur.t == nil || !cur.order || n < 2 || isStray() {
 			return nil
 		}
 		cur.t.Stat("probe:order-permuted")
